@@ -3,7 +3,7 @@ SPEC = dict(
     prop="C21",
     proof_module="SimbodyProofs.C21",
     sources=["SimbodyModel/Proto.lean", "SimbodyModel/C21.lean", "SimbodyProofs/C21.lean", "Drivers/C21.lean"],
-    n=dict(quick=150, thorough=3000),
+    n=dict(quick=150, thorough=2000),
     rtol=0.0, atol=0.0,
     modes=["", "oracle"],
     flow="harness_first",
